@@ -154,14 +154,15 @@ class SimWorld:
         self.timers = [t for t in self.timers if not t.canceled and not getattr(t, "_fired", False)]
         return list(self.timers)
 
-    def fire(self, timer):
-        """Run one timer callback as the reactor would (only if not cancelled and due)."""
+    def fire(self, timer, advance=True):
+        """Run one timer callback as the reactor would (only if not cancelled). With advance=False the
+        virtual clock is left alone (the callback's own logic must not depend on the time then)."""
         if timer in self.timers:
             self.timers.remove(timer)
         timer._fired = True
         if timer.canceled:
             return False
-        if self.clock.now < timer.end:
+        if advance and self.clock.now < timer.end:
             self.clock.now = timer.end
         timer.callback()
         return True
@@ -287,7 +288,7 @@ class FakeNode:
       /drop, or `auto` answers it at once with `auto_answer(req)`.
     """
 
-    def __init__(self, address, dc="dc1", rack="r1", tokens=("0",), host_id=None, versions=(3, 4, 5),
+    def __init__(self, address, dc="dc1", rack="r1", tokens=("00",), host_id=None, versions=(3, 4, 5),
                  release_version="4.0.0", partitioner="org.apache.cassandra.dht.ByteOrderedPartitioner"):
         self.address = address
         self.dc, self.rack, self.tokens = dc, rack, list(tokens)
